@@ -8,5 +8,5 @@ import json
 r=json.load(open('/verif/.scratch/r.json'))
 for k in ['episodes','nontrivial','steps','sim_time_ns','faults','probes','infra','wall_s','leak']: print(k, r[k])
 print('sigs',len(r['sigs']))
-for v in (r["violations"] or []): print(v['oracle'], v['message'][:${MSGLEN:-700}], len(v['tape']), 'idx', v['episode_index'])
+for v in (r.get('violations') or []): print(v['oracle'], v['message'][:${MSGLEN:-700}], len(v['tape']), 'idx', v['episode_index'])
 "
